@@ -49,6 +49,7 @@ import (
 	"github.com/nspcc-dev/neo-go/pkg/smartcontract/nef"
 	"github.com/nspcc-dev/neo-go/pkg/smartcontract/trigger"
 	"github.com/nspcc-dev/neo-go/pkg/util"
+	"github.com/nspcc-dev/neo-go/pkg/vm"
 	"github.com/nspcc-dev/neo-go/pkg/vm/emit"
 	"github.com/nspcc-dev/neo-go/pkg/vm/opcode"
 	"github.com/nspcc-dev/neo-go/pkg/vm/stackitem"
@@ -190,6 +191,23 @@ func proxyContract(sender util.Uint160, name string, groupIdx []int, withInit bo
 	emit.Opcodes(w.BinWriter, opcode.RET)
 	offThr := w.Len()
 	emit.Opcodes(w.BinWriter, opcode.THROW)
+	// deep(n, h): n == 0 -> the leaf on h; else System.Contract.Call(self, "deep", All, [n-1, h])
+	offDeep := w.Len()
+	{
+		base := io.NewBufBinWriter()
+		emit.Opcodes(base.BinWriter, opcode.DROP)
+		emitLeaf(base.BinWriter)
+		emit.Opcodes(base.BinWriter, opcode.RET)
+		emit.Opcodes(w.BinWriter, opcode.DUP, opcode.PUSH0, opcode.NUMEQUAL)
+		emit.Instruction(w.BinWriter, opcode.JMPIFNOT, []byte{byte(2 + base.Len())})
+		w.WriteBytes(base.Bytes())
+		emit.Opcodes(w.BinWriter, opcode.DEC, opcode.PUSH2, opcode.PACK)
+		emit.Int(w.BinWriter, int64(callflag.All))
+		emit.String(w.BinWriter, "deep")
+		emit.Syscall(w.BinWriter, sysExecuting)
+		emit.Syscall(w.BinWriter, sysCall)
+		emit.Opcodes(w.BinWriter, opcode.RET)
+	}
 	offVerify := w.Len()
 	emit.Syscall(w.BinWriter, sysCheckWitness)
 	emit.Opcodes(w.BinWriter, opcode.RET)
@@ -234,6 +252,7 @@ func proxyContract(sender util.Uint160, name string, groupIdx []int, withInit bo
 		{Name: "dyn", Offset: offDyn, Parameters: []manifest.Parameter{par("script", smartcontract.ByteArrayType), par("flags", smartcontract.IntegerType),
 			par("args", smartcontract.ArrayType)}, ReturnType: smartcontract.AnyType},
 		{Name: "thr", Offset: offThr, Parameters: hpar, ReturnType: smartcontract.AnyType},
+		{Name: "deep", Offset: offDeep, Parameters: []manifest.Parameter{par("n", smartcontract.IntegerType), par("h", smartcontract.ByteArrayType)}, ReturnType: smartcontract.ArrayType},
 		{Name: manifest.MethodVerify, Offset: offVerify, Parameters: hpar, ReturnType: smartcontract.BoolType},
 		{Name: manifest.MethodOnNEP17Payment, Offset: offPay, Parameters: []manifest.Parameter{par("from", smartcontract.AnyType),
 			par("amount", smartcontract.IntegerType), par("data", smartcontract.AnyType)}, ReturnType: smartcontract.VoidType},
@@ -375,6 +394,7 @@ type hop struct {
 	proxy int               // hopContract, hopNative, hopToken (the token's target)
 	flags callflag.CallFlag // requested flags of the call that creates this hop (hopToken: the token's flags)
 	tok   int
+	wide  int64 // added to the flags integer handed to the syscall: a CallFlag is a byte, the conversion truncates (256, 512, 1<<32)
 }
 
 // a side trip: a load that is over (returned, or threw and was caught) before the frame goes on
@@ -397,6 +417,7 @@ type chainCell struct {
 	h         util.Uint160 // the account CheckWitness is (meant to be) asked about
 	arg       []byte       // the bytes handed to System.Runtime.CheckWitness
 	argKind   string
+	deep      int // > 0: the last contract frame calls itself this many times more (method deep) before it checks
 	realTx    bool
 	nAccs     int               // realTx: number of funded accounts that sign after the validator
 	dep       *neotest.Contract // hopDeploy: the contract that is deployed (its hash depends on the sender)
@@ -501,10 +522,14 @@ func (cs *chainState) bodyScript(c *chainCell, j int) []byte {
 		switch nx.kind {
 		case hopContract:
 			m, args := cs.bodyCall(c, j+1)
-			emit.AppCall(w.BinWriter, cs.proxies[nx.proxy].hash, m, nx.flags, args...)
+			emit.Array(w.BinWriter, args...)
+			emit.Int(w.BinWriter, int64(nx.flags)+nx.wide)
+			emit.String(w.BinWriter, m)
+			emit.Bytes(w.BinWriter, cs.proxies[nx.proxy].hash.BytesBE())
+			emit.Syscall(w.BinWriter, sysCall)
 		case hopDynamic:
 			emit.Array(w.BinWriter)
-			emit.Int(w.BinWriter, int64(nx.flags))
+			emit.Int(w.BinWriter, int64(nx.flags)+nx.wide)
 			emit.Bytes(w.BinWriter, cs.bodyScript(c, j+1))
 			emit.Syscall(w.BinWriter, sysLoadScript)
 		case hopNative:
@@ -546,6 +571,8 @@ func (cs *chainState) bodyScript(c *chainCell, j int) []byte {
 func (cs *chainState) bodyCall(c *chainCell, j int) (string, []any) {
 	if j == len(c.hops) {
 		switch {
+		case c.deep > 0:
+			return "deep", []any{int64(c.deep), c.arg}
 		case c.inner[j]:
 			return "cwc", []any{c.arg}
 		case c.leaf == mCWS:
@@ -559,9 +586,9 @@ func (cs *chainState) bodyCall(c *chainCell, j int) (string, []any) {
 	switch nx.kind {
 	case hopContract:
 		m, args := cs.bodyCall(c, j+1)
-		main = []any{cs.proxies[nx.proxy].hash, m, int64(nx.flags), args}
+		main = []any{cs.proxies[nx.proxy].hash, m, int64(nx.flags) + nx.wide, args}
 	case hopDynamic:
-		return "dyn", []any{cs.bodyScript(c, j+1), int64(nx.flags), []any{}}
+		return "dyn", []any{cs.bodyScript(c, j+1), int64(nx.flags) + nx.wide, []any{}}
 	case hopToken:
 		return fmt.Sprintf("tcw%d", nx.tok), []any{c.arg}
 	case hopDeploy:
@@ -649,10 +676,10 @@ func (cs *chainState) ops(c *chainCell, entry []byte) []string {
 		switch hp.kind {
 		case hopContract:
 			safe := j+1 == len(c.hops) && c.leaf == mCWS && !c.inner[j+1]
-			ops = append(ops, fmt.Sprintf("CC %s %d %d %d", hTok(cs.proxies[hp.proxy].hash), int64(hp.flags), b01(safe), b01(cs.proxies[hp.proxy].init)))
+			ops = append(ops, fmt.Sprintf("CC %s %d %d %d", hTok(cs.proxies[hp.proxy].hash), int64(hp.flags)+hp.wide, b01(safe), b01(cs.proxies[hp.proxy].init)))
 			ini(hp.proxy)
 		case hopDynamic:
-			ops = append(ops, fmt.Sprintf("RL %s %d", hTok(hash.Hash160(cs.bodyScript(c, j+1))), int64(hp.flags)))
+			ops = append(ops, fmt.Sprintf("RL %s %d", hTok(hash.Hash160(cs.bodyScript(c, j+1))), int64(hp.flags)+hp.wide))
 		case hopNative:
 			ops = append(ops, fmt.Sprintf("CC %s %d 0 0", hTok(cs.gas), int64(hp.flags)))
 			ops = append(ops, fmt.Sprintf("NC %s %s %d", hTok(cs.gas), hTok(cs.proxies[hp.proxy].hash), b01(cs.proxies[hp.proxy].init)))
@@ -664,6 +691,15 @@ func (cs *chainState) ops(c *chainCell, entry []byte) []string {
 			ts := tokenSpec[hp.tok]
 			ops = append(ops, fmt.Sprintf("CT %s %d %d %d", hTok(cs.proxies[ts.proxy].hash), byte(ts.flags), b01(ts.method == "cws"), b01(cs.proxies[ts.proxy].init)))
 			ini(ts.proxy)
+		}
+	}
+	if c.deep > 0 {
+		p := cs.proxies[c.hops[len(c.hops)-1].proxy]
+		for i := 0; i < c.deep; i++ {
+			ops = append(ops, fmt.Sprintf("CC %s 15 0 %d", hTok(p.hash), b01(p.init)))
+			if p.init {
+				ops = append(ops, "RT")
+			}
 		}
 	}
 	if c.verif && c.probe >= 0 {
@@ -755,6 +791,16 @@ func (cs *chainState) env(c *chainCell, entry []byte) (*env, string) {
 			}
 		}
 	}
+	if c.deep > 0 && fault == "" {
+		p := cs.proxies[c.hops[len(c.hops)-1].proxy].hash
+		for i := 0; i < c.deep; i++ {
+			if len(fr) >= vm.MaxInvocationStackSize {
+				fault = "fault:stack" // "invocation stack is too big"
+				break
+			}
+			fr = append(fr, frame{hash: p, caller: p, rs: cur&callflag.ReadStates != 0})
+		}
+	}
 	c.endFlags = cur
 	e := &env{}
 	for i := len(fr) - 1; i >= 0; i-- {
@@ -826,6 +872,58 @@ func (cs *chainState) genArg(r *prng.R, c *chainCell) {
 
 func (cs *chainState) genCell(r *prng.R) *chainCell { return cs.genCellK(r, -1) }
 
+// deepLevels: how many script loads away from the entry script the checking contract is, in the fixed cells that
+// open the block: around every multiple of 256 (a nesting level kept in a byte wraps there), at the invocation
+// stack limit and one beyond (a fault). Levels marked triple are run with all three entry-relation signers.
+var deepLevels = []struct {
+	level  int
+	triple bool
+}{{2, false}, {3, true}, {127, false}, {128, false}, {129, false}, {254, false}, {255, false}, {256, true}, {257, true}, {258, false},
+	{510, false}, {511, false}, {512, true}, {513, true}, {514, false}, {766, false}, {767, false}, {768, true}, {769, false}, {770, false},
+	{1020, false}, {1021, false}, {1022, false}, {1023, true}, {1024, false}}
+
+func deepCellCount() int {
+	n := 0
+	for _, d := range deepLevels {
+		n++
+		if d.triple {
+			n += 2
+		}
+	}
+	return n
+}
+
+// deepCell: the idx-th fixed deep cell: entry -> P.deep(level-1, h): level script loads between the entry script and
+// the check; signers: CalledByEntry scope, Allow rule on CalledByEntry, Deny rule on CalledByEntry then Allow.
+func (cs *chainState) deepCell(idx int) *chainCell {
+	level, which := 0, 0
+	for _, d := range deepLevels {
+		m := 1
+		if d.triple {
+			m = 3
+		}
+		if idx < m {
+			level, which = d.level, idx
+			if !d.triple {
+				which = d.level % 3
+			}
+			break
+		}
+		idx -= m
+	}
+	c := &chainCell{probe: -1, deep: level - 1, leaf: mCW}
+	c.hops = []hop{{kind: hopContract, proxy: level % 2, flags: callflag.All}}
+	c.trips = make([][]trip, 2)
+	c.inner = make([]bool, 2)
+	a := cs.accounts
+	c.signers = []signer{{account: a[0], scopes: 0x01},
+		{account: a[1], scopes: 0x40, rules: []rule{{action: 1, c: &cond{kind: kEntry}}}},
+		{account: a[2], scopes: 0x40, rules: []rule{{action: 0, c: &cond{kind: kEntry}}, {action: 1, c: &cond{kind: kBool, b: true}}}}}
+	c.h = a[which]
+	c.arg, c.argKind = c.h.BytesBE(), "hash"
+	return c
+}
+
 // genCellK: k >= 0 allows a deployment as the last hop (the new contract's name carries k, so it is new on the chain).
 func (cs *chainState) genCellK(r *prng.R, k int) *chainCell {
 	c := &chainCell{probe: -1}
@@ -877,6 +975,9 @@ func (cs *chainState) genCellK(r *prng.R, k int) *chainCell {
 			case !native && r.Chance(1, 3):
 				hp.flags = callflag.ReadOnly
 			}
+		}
+		if (hp.kind == hopContract || hp.kind == hopDynamic) && r.Chance(1, 15) {
+			hp.wide = []int64{256, 512, 1 << 32, 255 << 8}[r.Intn(4)] // truncated away by the conversion to a CallFlag
 		}
 		c.hops = append(c.hops, hp)
 	}
@@ -976,6 +1077,8 @@ func classifyFault(s string) string {
 		return "fault:flagsrange"
 	case strings.Contains(s, "invalid call flags"):
 		return "fault:invalidflags"
+	case strings.Contains(s, "invocation stack is too big"):
+		return "fault:stack"
 	}
 	return "fault:" + strings.ReplaceAll(s, " ", "_")
 }
@@ -1132,9 +1235,13 @@ func (c *chainCell) shape() string {
 	return sb.String()
 }
 
-func runChainCase(o *hx.Out, k int, r *prng.R, cs *chainState) {
+func runChainCase(o *hx.Out, k int, r *prng.R, cs *chainState, idx int) {
 	o.Case(k)
 	c := cs.genCellK(r, k)
+	if idx < deepCellCount() {
+		c = cs.deepCell(idx)
+		o.Count("chain:fixed-deep-cell")
+	}
 	entry := cs.bodyScript(c, 0)
 	e, wantFault := cs.env(c, entry)
 	obs := cs.runCell(c, entry)
